@@ -19,6 +19,7 @@ def run(chk, facts, tier):
              'like handle_write_request / handle_execute_write_request build their write arguments', floor=3)
     chk.rule('prepare-defers', 'Prepare Write: the only attribute access is the zero-length probe; the payload is copied into the queue element returned by allocate_from_write_queue (null -> Prepare Queue Full)', floor=1)
     chk.rule('execute-writes-own-attribute', 'handle_execute_write_request applies every queued element to the attribute named by the handle stored in that element (looked up inside the loop)', floor=1)
+    chk.rule('element-size-codec', 'the write queue stores the length of an element as two octets (size & 0xff, size >> 8) and read_size() rebuilds it as low + high * 256 (or low | high << 8) in at least 16 bit: elements longer than 255 octets keep their length', floor=1)
     chk.rule('execute-frees-on-every-exit', 'handle_execute_write_request: every exit behind the PDU check releases the queue (write_queue_guard in scope or free_write_queue on the path)', floor=1)
     chk.rule('release-only-after-pdu-check', 'handle_execute_write_request: the write_queue_guard and every free_write_queue are control dependent on the passed PDU check (in_size == 2, flag 0 or 1): the queue is released on execute, cancel or disconnect only', floor=1)
     chk.rule('single-owner', 'allocate_from_write_queue refuses when another client owns the queue and claims the queue only on the path that queues an element; first_write_queue_element yields only to the owner; free_write_queue only for the owner', floor=4)
@@ -182,6 +183,42 @@ def run(chk, facts, tier):
         ok = len(c) == 1 and is_name(c[0].args()[0], 'connection_data_') and not fn.guards(c[0])
         chk.instance('release-on-disconnect', fn, 'force_disconnect -> client_disconnected(connection_data_)', ok,
                      '' if ok else 'the link layer never tells the server that the client is gone: the next connection inherits (and can execute) the previous client\'s prepared writes', key='link layer')
+    for fn in facts.functions:
+        if fn.kind not in ('pattern', 'plain') or fn.name != 'read_size' or 'write_queue' not in fn.q:
+            continue
+        p0 = fn.params[0]['n']
+        rs = fn.returns()
+        ok, why = len(rs) == 1, 'expected one return'
+        if ok:
+            b = as_binop(ret_value(rs[0]))
+            ok = b is not None and b[0] in ('+', '|')
+            why = 'the length is not low + high * 256'
+            if ok:
+                def octet(n, k):
+                    e = as_elem(n)
+                    if e is None:
+                        return False
+                    base, idx = e
+                    if isinstance(idx, int):
+                        bb = as_binop(base)
+                        return bb is not None and bb[0] == '-' and is_name(bb[1], p0) and cval(bb[2]) == k
+                    return False
+                lo = [x for x in b[1:] if octet(x, 2)]
+                hi = None
+                top = deep(ret_value(rs[0]))
+                for x in (top.c if top is not None and len(top.c) == 2 else b[1:]):
+                    raw = x
+                    narrowed = False
+                    while raw is not None and not isinstance(raw, int) and raw.k in CAST_KINDS + ('ParenExpr', 'ImplicitCastExpr') and raw.c:
+                        if raw.k != 'ImplicitCastExpr' and any(w in (raw.t or '') for w in ('uint8_t', 'unsigned char', 'char')):
+                            narrowed = True
+                        raw = raw.c[0]
+                    bb = as_binop(x)
+                    if bb and ((bb[0] == '*' and 256 in (cval(bb[1]), cval(bb[2]))) or (bb[0] == '<<' and cval(bb[2]) == 8)) and any(octet(y, 1) for y in bb[1:]):
+                        hi = (x, narrowed)
+                ok = len(lo) == 1 and hi is not None and not hi[1]
+                why = 'the high octet of the stored length is lost (narrowed to 8 bit after the shift, or missing): the length of a queued write is taken modulo 256 and the rest of its data is read as further queue elements'
+        chk.instance('element-size-codec', fn, 'read_size = last[-2] + last[-1] * 256', ok, '' if ok else why, key='read_size')
 
 
 def guard_before(fn, guard, r):
